@@ -61,6 +61,44 @@ func (m *C08Monitor) AfterPass(r *Runner, pv *PassView) error {
 					droppedInBetween = true
 				}
 			}
+			// the statement ties the archival of an unavailable revision to what the *next newer* revision contains: a revision
+			// whose successor dropped the object may be archived (and then deletes it) even if a still later revision lists
+			// the object again - that one re-creates it; the handover clause is about an outgoing revision and its successor
+			nextDrops := func(list []map[string]any) bool {
+				var next map[string]any
+				for _, o := range list {
+					if setRevision(o) > ownRev && (next == nil || setRevision(o) < setRevision(next)) {
+						next = o
+					}
+				}
+				return next != nil && engine.UID(next) != engine.UID(newest) && !specObjectIDs(r.W.Store, next)[id]
+			}
+			if ownRev > 0 && nextDrops(sets) {
+				droppedInBetween = true
+			}
+			// ... judged at the moment the deleting revision was archived as well: the deletion only carries out that decision,
+			// and the intermediate revision may have stopped being Available since (the newest one taking its objects over)
+			ownSet := pv.OwnerKey
+			if (ownSet.Kind == "ObjectSetPhase" || ownSet.Kind == "ClusterObjectSetPhase") && pv.Owner != nil {
+				if cr, ok := engine.ControllerRef(pv.Owner); ok {
+					ownSet = kubesim.Key{Group: engine.PKOGroup, Kind: depSetKind(), Namespace: pv.OwnerKey.Namespace, Name: cr.Name}
+				}
+			}
+			for j := base + ci - 1; j >= 0 && !droppedInBetween && ownRev > 0; j-- {
+				ac := r.W.Store.Trace[j]
+				if ac.Actor == "pko" && ac.Verb == "update" && ac.Key == ownSet && ac.Pre != nil && ac.Post != nil &&
+					lifecycleOf(ac.Pre) != "Archived" && lifecycleOf(ac.Post) == "Archived" {
+					for _, o := range depSetsAt(r, j) {
+						if setRevision(o) > ownRev && engine.Conditions(o)["Available"].Status == "True" && !specObjectIDs(r.W.Store, o)[id] {
+							droppedInBetween = true
+						}
+					}
+					if nextDrops(depSetsAt(r, j)) {
+						droppedInBetween = true
+					}
+					break
+				}
+			}
 		}
 		if droppedInBetween {
 			r.Labels["c08-object-dropped-by-available-intermediate-revision"] = true
